@@ -24,7 +24,7 @@ def build_high_order_mesh(rng, pts, tri, order, bubble, blocks):
     X = onp.einsum("ak,ekd->ead", lam, pts[tri])                      # (nE, npe, 2)
     flat = X.reshape(-1, 2)
     diam = float(onp.linalg.norm(flat.max(axis=0) - flat.min(axis=0)))
-    pairs = cKDTree(flat).query_pairs(1e-9 * diam, output_type="ndarray")
+    pairs = cKDTree(flat).query_pairs(max(1e-9 * diam, 64 * 2.3e-16 * float(onp.abs(flat).max())), output_type="ndarray")
     n = len(flat)
     g = coo_matrix((onp.ones(len(pairs)), (pairs[:, 0], pairs[:, 1])), shape=(n, n))
     ncomp, lab = connected_components(g, directed=False)
